@@ -71,6 +71,15 @@ func agentHdr(backend, reqID string) http.Header {
 	return h
 }
 
+func indexOf(ss []string, s string) int {
+	for i, x := range ss {
+		if x == s {
+			return i
+		}
+	}
+	return 0
+}
+
 func snapshotDiff(a, b map[string]string) string {
 	var d []string
 	for k, v := range a {
@@ -114,7 +123,8 @@ func worldC17(w *World) {
 	nB := t.Range(1, 4, "backends")
 	var backends []*gaeBackend
 	for i := 0; i < nB; i++ {
-		b := &gaeBackend{BackendID: fmt.Sprintf("be%d", i), BackendUser: agents[t.Choice(len(agents), "buser")]}
+		// some backend IDs are related through a separator (IDs are chosen by administrators)
+		b := &gaeBackend{BackendID: []string{"team", "team:eu", "be2", "be3"}[i], BackendUser: agents[t.Choice(len(agents), "buser")]}
 		b.EndUser = append(users, "allUsers")[t.Choice(4, "enduser")]
 		b.PathPrefixes = []string{[]string{"/", "/app", "/app/x", "/other"}[t.Choice(4, "prefix")]}
 		backends = append(backends, b)
@@ -266,7 +276,8 @@ func worldC17(w *World) {
 			bid = "nosuch"
 		}
 		ep := []string{"pending", "request", "response"}[t.Choice(3, "endpoint")]
-		ridKind := t.Choice(3, "ridkind") // own, other's, unknown
+		ridKind := t.Choice(4, "ridkind") // own, other's, unknown, crafted from another backend's ID and request ID
+		readFault := t.Rare(1, 3, "readfault")
 		steps = append(steps, step{kind: "agent", desc: fmt.Sprintf("%s calls /agent/%s for %s (request of kind %d)", who, ep, bid, ridKind),
 			run: func() *gaeResult {
 				reqs := requestEntities(plat)
@@ -282,6 +293,24 @@ func worldC17(w *World) {
 							rid = l[0]
 						}
 					}
+				case 3:
+					for ob, l := range reqs {
+						if strings.HasPrefix(ob, bid+":") && len(l) > 0 {
+							rid = ob[len(bid)+1:] + ":" + l[0]
+							w.Probe("crafted_request_id")
+						}
+					}
+				}
+				if readFault && ep == "response" {
+					// reading the named request fails with a storage error during this call
+					plat.Fault = func(r *simplatform.RPC) error {
+						if r.Service == "datastore_v3" && r.Method == "Get" && len(r.Keys) > 0 && strings.HasPrefix(r.Keys[0], "/req:") {
+							w.K.Count("fault.request_read")
+							return errors.New("injected datastore failure")
+						}
+						return nil
+					}
+					defer func() { plat.Fault = nil }()
 				}
 				method, body := "GET", []byte(nil)
 				if ep == "response" {
@@ -310,8 +339,17 @@ func worldC17(w *World) {
 						}
 					}
 					rid := r.Header.Get("X-Harness-Rid")
-					if ep == "request" && r.Status == 200 && ridKind == 1 {
+					if ep == "request" && r.Status == 200 && (ridKind == 1 || ridKind == 3) && rid != "unknown-id" {
 						w.Violation("agent", "an agent fetched a request that belongs to another backend | %s fetched %s", bid, rid)
+					}
+					own := map[string]bool{}
+					for _, x := range requestEntities(plat)[bid] {
+						own[x] = true
+					}
+					for k := range after {
+						if before[k] != after[k] && strings.HasPrefix(k, "ds:/response:") && !own[k[len("ds:/response:"):]] {
+							w.Violation("agent", "an agent call stored a response for a request that does not belong to its backend | %s for %s wrote %s", ep, bid, k)
+						}
 					}
 					return
 				}
@@ -333,6 +371,52 @@ func worldC17(w *World) {
 					w.Violation("agent", "a refused agent call disclosed stored bytes | %.60q", r.Body)
 				}
 			}})
+	}
+	// phase 4: an administrator re-registers a backend for another agent identity
+	if t.Rare(2, 3, "reregister") {
+		b := backends[t.Choice(nB, "rereg")]
+		oldUser := b.BackendUser
+		newUser := agents[(t.Choice(2, "newuser")+1+indexOf(agents, oldUser))%len(agents)]
+		call := func(user, ep string) func() *gaeResult {
+			return func() *gaeResult {
+				method, body := "GET", []byte(nil)
+				if ep == "response" {
+					method, body = "POST", []byte("HTTP/1.1 200 OK\r\nContent-Length: 2\r\n\r\nok")
+				}
+				return gaeCall(w, plat, "agent", simplatform.Identity{OAuthEmail: user}, method, "/agent/"+ep, agentHdr(b.BackendID, "unknown-id"), body)
+			}
+		}
+		expect := func(user string, what string) func(r *gaeResult, before, after map[string]string) {
+			return func(r *gaeResult, before, after map[string]string) {
+				reg := acl[b.BackendID]
+				authorised := reg != nil && reg.BackendUser == user
+				if authorised && r.Status == 401 {
+					w.Violation("agent", "the registered backend user was refused | %s", what)
+				}
+				if !authorised && r.Status != 401 {
+					w.Violation("agent", "an agent call by a caller who is no longer (or not) the backend's registered user was not refused with 401 | %s: %d", what, r.Status)
+				}
+				if !authorised {
+					w.Probe("reregistered_old_agent")
+				}
+			}
+		}
+		nb := *b
+		nb.BackendUser = newUser
+		nbody, _ := json.Marshal(&nb)
+		steps = append(steps,
+			step{kind: "agent", desc: "old agent fetches before re-registration", run: call(oldUser, "request"), want: expect(oldUser, "before re-registration")},
+			step{kind: "admin-add", desc: "admin re-registers " + b.BackendID + " for " + newUser,
+				run: func() *gaeResult { return gaeCall(w, plat, "api", adminID, "POST", "/api/backends", nil, nbody) },
+				want: func(r *gaeResult, _, _ map[string]string) {
+					if r.Status == 200 {
+						acl[b.BackendID] = &nb
+					}
+				}},
+			step{kind: "agent", desc: "old agent fetches after re-registration", run: call(oldUser, "request"), want: expect(oldUser, "old agent identity after the backend was re-registered for another identity")},
+			step{kind: "agent", desc: "old agent responds after re-registration", run: call(oldUser, "response"), want: expect(oldUser, "old agent identity after the backend was re-registered for another identity")},
+			step{kind: "agent", desc: "new agent fetches after re-registration", run: call(newUser, "request"), want: expect(newUser, "new agent identity")},
+		)
 	}
 	var descs []string
 	for _, s := range steps {
